@@ -710,7 +710,7 @@ Proof. intros p c Hok H. apply wf_bytes_within_size. exact (accept_coherent p c 
 (* the two outcomes of load: a coherent, re-savable content, or one of the documented exception classes *)
 Theorem load_dichotomy : forall f p, msg_ok p = true ->
   (exists c, load f p = Ok c /\ wf c = true /\ refs_closed c /\ from_proto (to_proto c) = Ok c)
-  \/ (exists e, load f p = Err e /\ (e = EValue \/ e = EDeser \/ e = EType \/ e = EImpossible)).
+  \/ (exists e, load f p = Err e /\ (e = EValue \/ e = EDeser \/ e = EType)).
 Proof.
   intros f p Hok. destruct (load f p) as [c|e] eqn:E.
   - left. exists c. destruct (load_accept f p c E) as [_ H].
